@@ -47,6 +47,7 @@ inductive BErr
   | nestedLists          -- "nested lists not supported"
   | unsupported          -- "unsupported type … in map"
   | required             -- errorz.FieldError "<field> is required"
+  | timeMarshal          -- the error of `time.Time.MarshalBinary` ("unexpected zone offset")
   deriving DecidableEq, Repr
 
 def maxKeySize : Nat := 32768
@@ -89,11 +90,18 @@ inductive Value where
   | goInt (i : Int)            -- Go `int` (stored as int64)
   | f64 (bits : Nat)           -- math.Float64bits
   | bool (b : Bool)
-  | time (p : Bytes)           -- value.UTC().MarshalBinary()
+  | time (t : GoTime)          -- a `time.Time` in whatever representation (zone, monotonic reading)
   | map (kvs : List (Bytes × Value))
   | list (xs : List Value)
   | unsupported                -- any other dynamic type
   deriving Repr
+
+/-- `value.UTC().MarshalBinary()` as `SetTime` / `SetTimeP` call it, the error being what they put
+    into `bucket.Err` -/
+def timePayload (t : GoTime) : Except BErr Bytes :=
+  match marshalBinary t.utc with
+  | .ok p => .ok p
+  | .error _ => .error .timeMarshal
 
 /-- the bytes a scalar is stored as (`setMarshaled` → `Set*`); `none` for containers -/
 def encScalar : Value → Option Bytes
@@ -104,7 +112,7 @@ def encScalar : Value → Option Bytes
   | .goInt i => some (typeInt64 :: encInt64 i)
   | .f64 bits => some (typeFloat64 :: le 8 bits)
   | .bool b => some [typeBool, if b then 1 else 0]
-  | .time p => some (if p = [] then [typeNil] else typeTime :: p)   -- setTyped: nil value → TypeNil
+  | .time t => (match timePayload t with | .ok p => some (typeTime :: p) | .error _ => none)
   | _ => none
 
 /-- list element key: `string(Int32ToBytes(int32(idx)))` -/
@@ -144,7 +152,10 @@ def setMarshaled (es : Bkt) (name : Bytes) (v : Value) (allowNested : Bool) : Ex
   | .goInt i => bput es name (typeInt64 :: encInt64 i)
   | .f64 bits => bput es name (typeFloat64 :: le 8 bits)
   | .bool b => bput es name [typeBool, if b then 1 else 0]
-  | .time p => bput es name (if p = [] then [typeNil] else typeTime :: p)
+  | .time t =>
+    match timePayload t with
+    | .ok p => bput es name (typeTime :: p)
+    | .error e => .error e
 /-- `for key, val := range value { tagsBucket.setMarshaled(key, val, allowNested) }` -/
 def putEntries (child : Bkt) (kvs : List (Bytes × Value)) (allowNested : Bool) : Except BErr Bkt :=
   match kvs with
@@ -258,15 +269,23 @@ def setInt64 (tb : TB) (name : Bytes) (i : Int) (chk : Checker) : TB :=
 def setFloat64 (tb : TB) (name : Bytes) (bits : Nat) (chk : Checker) : TB :=
   if proceedWithSet tb name chk then tb.apply (bput tb.es name (typeFloat64 :: le 8 bits)) else tb
 
-/-- `SetTime`; `p` = `value.UTC().MarshalBinary()` (which does not fail for a UTC time) -/
-def setTime (tb : TB) (name p : Bytes) (chk : Checker) : TB :=
-  if proceedWithSet tb name chk then setTyped tb typeTime name (some p) else tb
-
-def setTimeP (tb : TB) (name : Bytes) (p : Option Bytes) (chk : Checker) : TB :=
+/-- `SetTime`: `value.UTC().MarshalBinary()`, the bytes stored under the time tag, an error kept in
+    `bucket.Err` -/
+def setTime (tb : TB) (name : Bytes) (t : GoTime) (chk : Checker) : TB :=
   if proceedWithSet tb name chk then
-    match p with
+    match timePayload t with
+    | .ok p => setTyped tb typeTime name (some p)
+    | .error e => { tb with err := some e }
+  else tb
+
+def setTimeP (tb : TB) (name : Bytes) (t : Option GoTime) (chk : Checker) : TB :=
+  if proceedWithSet tb name chk then
+    match t with
     | none => setNil tb name
-    | some v => setTyped tb typeTime name (some v)
+    | some v =>
+      match timePayload v with
+      | .ok p => setTyped tb typeTime name (some p)
+      | .error e => { tb with err := some e }
   else tb
 
 /-- `SetListEntry(TypeString, key)` for each element, first error stops -/
@@ -313,7 +332,7 @@ def getBool (es : Bkt) (name : Bytes) : Option Bool := fieldToBool (getTyped es 
 def getInt32 (es : Bkt) (name : Bytes) : Option Int := fieldToInt32 (getTyped es name).1 (getTyped es name).2
 def getInt64 (es : Bkt) (name : Bytes) : Option Int := fieldToInt64 (getTyped es name).1 (getTyped es name).2
 def getFloat64 (es : Bkt) (name : Bytes) : Option FloatRead := fieldToFloat64 (getTyped es name).1 (getTyped es name).2
-def getTime (es : Bkt) (name : Bytes) : Option Bytes := fieldToDatetime (getTyped es name).1 (getTyped es name).2
+def getTime (es : Bkt) (name : Bytes) : Option GoTime := fieldToDatetime (getTyped es name).1 (getTyped es name).2
 
 /-- `ReadStringList`: cursor walk, each key without its type byte -/
 def readStringList (c : Bkt) : List Bytes := c.map fun e => obytes (getTypeAndValue (some e.1)).2
@@ -436,8 +455,8 @@ inductive FieldOp where
   | i64 (i : Int)
   | f64 (bits : Nat)
   | bool (b : Bool)
-  | time (p : Bytes)
-  | timeP (p : Option Bytes)
+  | time (t : GoTime)
+  | timeP (t : Option GoTime)
   | strList (xs : List Bytes)
   | getAndSetStrList (xs : List Bytes)
   | map (kvs : List (Bytes × Value)) (allowNested : Bool)
@@ -471,7 +490,8 @@ def persist (tb : TB) (ops : List (Bytes × FieldOp)) (chk : Checker) : TB :=
 /-! ### what the property expects to read back -/
 
 mutual
-/-- the value as it is expected back: Go `int` widened to int64, map entries in key order -/
+/-- the value as it is expected back: Go `int` widened to int64, map entries in key order, a time as
+    the same instant (`sec`, `nsec` untouched) in UTC without monotonic reading -/
 def normalize : Value → Value
   | .goInt i => .i64 i
   | .map kvs => .map (normKvs kvs [])
@@ -482,7 +502,7 @@ def normalize : Value → Value
   | .i64 i => .i64 i
   | .f64 b => .f64 b
   | .bool b => .bool b
-  | .time p => .time p
+  | .time t => .time t.utc
   | .unsupported => .unsupported
 def normKvs : List (Bytes × Value) → List (Bytes × Value) → List (Bytes × Value)
   | [], acc => acc
@@ -518,14 +538,14 @@ end
 
 mutual
 /-- values the round trip is claimed for: integers in range, float bit patterns below 2^64,
-    non-empty marshalled times, lists shorter than 2^31, no map key equal to the reserved
+    valid `time.Time` values (`sec()` an int64, `nsec() < 1e9`; any zone, any monotonic reading), lists shorter than 2^31, no map key equal to the reserved
     list-size key, only supported dynamic types -/
 def supported : Value → Bool
   | .i32 i => decide (InInt32 i)
   | .i64 i => decide (InInt64 i)
   | .goInt i => decide (InInt64 i)
   | .f64 b => decide (b < 2 ^ 64)
-  | .time p => p ≠ []
+  | .time t => decide t.valid
   | .map kvs => supportedKvs kvs
   | .list xs => decide (xs.length < 2 ^ 31) && supportedXs xs
   | .unsupported => false
